@@ -106,6 +106,10 @@ def run(ctx):
         rows2 = P.table(ctx, H0 + 'send_content_body', ['self', 'content'])
         r.check('handle:body-frame', len(rows2) == 1 and 'serialize::OutputBuffer::push_content_body(self.buf, self.channel_id, content)' in rows2[0].effects, ctx.site(H0 + 'send_content_body'))
 
+    with ctx.rule('R02.5', 'publishes keep reaching the wire: channels are polled again at or below the low-water mark (shared with C18)', floor=5) as r:
+        from rules import arms as A
+        A.include(ctx, r, 'c18', 'R18.2')
+
     with ctx.rule('R02.4', 'payload limit = negotiated frame_max - 8 (single source, see C15)', floor=3) as r:
         from rules import c15
         sub = type(ctx)(ctx.facts, ctx.info, ctx.prop, ctx.tier, ctx.config)
